@@ -172,12 +172,43 @@ def load_realign(repo):
         mod.WavefrontAligner = AlignerShim
     # files opened for writing by the code under test are tracked so that they can be flushed at
     # "interpreter exit" (run_realign never closes its output)
+    class WorkerFile:
+        """file opened for writing by a *worker*: every write is a seam operation, so that a worker
+        can be pre-empted or killed between two writes (designs that hand results over in files)"""
+
+        def __init__(self, f):
+            self._f = f
+
+        def write(self, data):
+            w = simmp.WORLD
+            if w is not None and w.kernel.current is not None:
+                w.seam(Op("file-write", ""))
+            return self._f.write(data)
+
+        def writelines(self, lines):
+            for ln in lines:
+                self.write(ln)
+
+        def __enter__(self):
+            return self
+
+        def __exit__(self, *a):
+            self._f.close()
+
+        def __iter__(self):
+            return iter(self._f)
+
+        def __getattr__(self, name):
+            return getattr(self._f, name)
+
     def tracking_open(file, mode="r", *a, **k):
         f = builtins.open(file, mode, *a, **k)
         if any(c in mode for c in "wax+"):
             w = simmp.WORLD
             if w is not None:
                 w.open_files.append(f)
+                if w.current_proc() is not w.parent:
+                    return WorkerFile(f)
         return f
 
     mod.open = tracking_open
@@ -263,6 +294,18 @@ def run_sim(repo, paths, cfg, decisions=None, keep_trace=True):
     """One simulated execution of run_realign.  cfg keys: cores, cpu_count, batch, pipe{capacity,buf,split},
     policy{...}, seed, faults[...], chaos_steps, max_steps.  `decisions` (label list) => replay mode."""
     mod = load_realign(repo)
+    if _MOD_INFO.get("foreign"):
+        # the code under test uses concurrency / process APIs outside the model: no verdict is possible
+        r = RunResult()
+        for k in RunResult.__slots__:
+            setattr(r, k, None)
+        r.unsupported = "foreign-concurrency-api:" + ",".join(_MOD_INFO["foreign"])
+        r.probes, r.fault_log, r.decisions, r.deaths, r.trace = {}, [], [], [], []
+        r.steps = r.nprocs = r.api_deaths = r.replay_misses = 0
+        r.sim_seconds = r.timeout_seconds = 0.0
+        r.sig = "0" * 24
+        r.digest = "unsupported"
+        return r
     rng = random.Random("run-%s" % cfg["seed"])
     policy = Replay(decisions) if decisions is not None else make_policy(cfg, rng)
     kernel = Kernel(policy, max_steps=cfg.get("max_steps", 20000))
@@ -358,7 +401,9 @@ def run_sim(repo, paths, cfg, decisions=None, keep_trace=True):
     r.sig = kernel.sig.hexdigest()[:24]
     r.replay_misses = policy.misses if isinstance(policy, Replay) else 0
     r.max_alive = 0
-    r.digest = kernel.digest(repr((r.outcome, r.hang, r.out, r.deaths)))
+    # exception messages may carry temp-file names, pids or addresses: only the type enters the digest
+    oc_d = [r.outcome[0], r.outcome[1].split(":")[0]] if r.outcome and r.outcome[0] == "exception" else r.outcome
+    r.digest = kernel.digest(repr((oc_d, r.hang, r.out, r.deaths)))
     return r
 
 
